@@ -53,6 +53,13 @@ def apply_hunks(orig, body):
             nonl = i + 1 < len(body) and body[i + 1].startswith(b"\\ No newline")
             if nonl:
                 rest = rest[:-1] if rest.endswith(b"\n") else rest
+            # a printer without "\ No newline at end of file" markers: the last source line may lack its newline
+            if tag in (b" ", b"-") and pos == len(src) - 1 and not src[pos].endswith(b"\n") and src[pos] + b"\n" == rest:
+                if tag == b" ":
+                    out.append(rest)
+                pos += 1
+                i += 2 if nonl else 1
+                continue
             if tag == b" ":
                 if pos >= len(src) or src[pos] != rest:
                     raise DiffError("context mismatch at line %d: %r vs %r" % (pos + 1, src[pos] if pos < len(src) else None, rest))
